@@ -1062,10 +1062,12 @@ def stage(ck, outs, prefix="sched_"):
             if not r.get("ref_keys_in_ops", True):
                 ck.count(prefix + "ref_cost_keys_outside_builder_ops")
         elif r["kind"] == "fast":
-            m = re.match(r"ok entered=(\d) evicted=(\S*) kept=(\S*) fms=(\S*) ", a)
+            m = re.match(r"ok wf=(\d) entered=(\d) evicted=(\S*) kept=(\S*) fms=(\S*) ", a)
             if m:
-                model = f"evicted={m.group(2)} kept={m.group(3)} fms={m.group(4)}"
-                if m.group(1) == "1":
+                model = f"evicted={m.group(3)} kept={m.group(4)} fms={m.group(5)}"
+                if m.group(1) != "1":
+                    ck.count(prefix + "fast_storage_outside_theorem_hypotheses")
+                if m.group(2) == "1":
                     ck.count(prefix + "fast_storage_over_limit")
                     nontrivial.add(r["line"])
                 if r.get("competing"):
